@@ -3,18 +3,17 @@ C14 — Spike features obey their ordering, extremum and equivariance laws
 (`ibldsp.waveforms.compute_spike_features`).
 
 Property theorems only; the model is `Model/Features.lean`, the vocabulary (`smp`, `IsPeakLoc`,
-`IsFirstExtremum`, `WeaklyPositive`, `StaysHigh`, `WithinHalf`, `UniqueMaxChannel`, `RectBatch`) is
+`IsFirstExtremum`, `WeaklyPositive`, `WithinHalf`, `UniqueMaxChannel`, `RectBatch`) is
 `Lemmas/FeaturesSpec.lean`, helper lemmas are `Lemmas/Features*.lean`.
 
 Every statement is about `Features.batch k T ws`: the vectorised pipeline on a whole batch
 `ws = arr_in[N, T, C]` (waveform `i`, channel `c`, sample `t` is `smp ws[i] c t`), for ALL batches of
 rational-valued waveforms, all `N, T, C ≥ 1` and all recovery offsets `k` – the property's quantifier.
 
-Finding F21 (reported, not repaired): when the largest deflection is positive and the trace never
-falls below two thirds of it afterwards (`StaysHigh`, e.g. a positive peak on the last sample) the
-swap branch of `find_tip_trough` leaves the un-inverted trace in `arr_peak`, and the tip, half-peak and
-recovery VALUE columns (and the tip / half-peak indices) are computed on the wrong polarity.  The
-theorems about those columns carry the hypothesis `¬ StaysHigh`; `stays_high_counterexample` is the witness.
+Finding F21 (positive largest deflection after which the trace never falls below two thirds of it, e.g.
+a positive peak on the last sample: the swap branch used to leave the un-inverted trace in `arr_peak`)
+was repaired in /repo (`fix:` 3bee7fb); the model follows the repaired code, no theorem excludes that
+class any more, and `swapped_positive_peak_witness` states the repaired behaviour on the old witness.
 -/
 import IblVerif.Lemmas.FeaturesMain
 import Mathlib.Tactic.IntervalCases
@@ -115,24 +114,22 @@ theorem trough_is_extremum_after_peak (k T : Nat) (ws : List Wave) (fs : List Fe
     _ = flipSign f.peakVal * (flipSign f.peakVal * invertSign f.peakVal) := by ring
     _ = flipSign f.peakVal := by rw [this]; ring
 
-/-- Outside the F21 class the tip is the first sample before the peak at which the peak channel is most
+/-- The tip is the first sample before the peak at which the peak channel is most
 opposite to the peak, and `tip_val` is the sample there. -/
 theorem tip_is_extremum_before_peak (k T : Nat) (ws : List Wave) (fs : List Feat) (hB : RectBatch T ws)
-    (h : batch k T ws = .ok fs) (i : Nat) (w : Wave) (f : Feat) (hw : ws[i]? = some w) (hf : fs[i]? = some f)
-    (hF21 : ∀ c p, IsPeakLoc T w c p → ¬ StaysHigh T w c p) :
+    (h : batch k T ws = .ok fs) (i : Nat) (w : Wave) (f : Feat) (hw : ws[i]? = some w) (hf : fs[i]? = some f) :
     IsFirstExtremum w f.peakTrace (flipSign f.peakVal) 0 f.peakTime f.tipTime ∧
     f.tipVal = smp w f.peakTrace f.tipTime := by
   obtain ⟨c0, p0, hloc, hs⟩ := batch_row_spec hB h hw hf
-  have hg := hs.good (hF21 c0 p0 hloc)
+  have hg := hs.good
   rw [hs.trace]
   exact ⟨hg.tip, hg.tipv⟩
 
-/-- Outside the F21 class: whenever some sample on that side of the peak is back within half of the peak
+/-- Whenever some sample on that side of the peak is back within half of the peak
 value, the half-peak point is the NEAREST such sample (after: first from the peak on; before: last
 before the peak), and the half-peak values are the samples at the reported indices. -/
 theorem half_peak_nearest (k T : Nat) (ws : List Wave) (fs : List Feat) (hB : RectBatch T ws)
-    (h : batch k T ws = .ok fs) (i : Nat) (w : Wave) (f : Feat) (hw : ws[i]? = some w) (hf : fs[i]? = some f)
-    (hF21 : ∀ c p, IsPeakLoc T w c p → ¬ StaysHigh T w c p) :
+    (h : batch k T ws = .ok fs) (i : Nat) (w : Wave) (f : Feat) (hw : ws[i]? = some w) (hf : fs[i]? = some f) :
     ((∃ t, f.peakTime ≤ t ∧ t < T ∧ WithinHalf f.peakVal (smp w f.peakTrace t)) →
         f.peakTime < f.halfPost ∧ f.halfPost < T ∧ WithinHalf f.peakVal (smp w f.peakTrace f.halfPost) ∧
         ∀ u, f.peakTime ≤ u → u < f.halfPost → ¬ WithinHalf f.peakVal (smp w f.peakTrace u)) ∧
@@ -141,7 +138,7 @@ theorem half_peak_nearest (k T : Nat) (ws : List Wave) (fs : List Feat) (hB : Re
         ∀ u, f.halfPre < u → u < f.peakTime → ¬ WithinHalf f.peakVal (smp w f.peakTrace u)) ∧
     f.halfPostVal = smp w f.peakTrace f.halfPost ∧ f.halfPreVal = smp w f.peakTrace f.halfPre := by
   obtain ⟨c0, p0, hloc, hs⟩ := batch_row_spec hB h hw hf
-  have hg := hs.good (hF21 c0 p0 hloc)
+  have hg := hs.good
   rw [hs.trace]
   refine ⟨?_, hg.half.pre_some, hg.postv, hg.prev⟩
   intro hex
@@ -162,27 +159,25 @@ theorem half_peak_nearest (k T : Nat) (ws : List Wave) (fs : List Feat) (hB : Re
 /-- … and when no sample on a side is back within half of the peak value the code's fall-backs are
 reported: sample 0 after the peak, the last sample of the window before it. -/
 theorem half_peak_absent (k T : Nat) (ws : List Wave) (fs : List Feat) (hB : RectBatch T ws)
-    (h : batch k T ws = .ok fs) (i : Nat) (w : Wave) (f : Feat) (hw : ws[i]? = some w) (hf : fs[i]? = some f)
-    (hF21 : ∀ c p, IsPeakLoc T w c p → ¬ StaysHigh T w c p) :
+    (h : batch k T ws = .ok fs) (i : Nat) (w : Wave) (f : Feat) (hw : ws[i]? = some w) (hf : fs[i]? = some f) :
     ((¬ ∃ t, f.peakTime ≤ t ∧ t < T ∧ WithinHalf f.peakVal (smp w f.peakTrace t)) → f.halfPost = 0) ∧
     ((¬ ∃ t, t < f.peakTime ∧ WithinHalf f.peakVal (smp w f.peakTrace t)) → f.halfPre = T - 1) := by
   obtain ⟨c0, p0, hloc, hs⟩ := batch_row_spec hB h hw hf
-  have hg := hs.good (hF21 c0 p0 hloc)
+  have hg := hs.good
   rw [hs.trace]
   exact ⟨hg.half.post_none, hg.half.pre_none⟩
 
 /-- The recovery point is `k` samples after the trough, or the last sample of the window whenever that
-runs past the end (in particular when `trough + k = T`); outside the F21 class its value is the sample there. -/
+runs past the end (in particular when `trough + k = T`); its value is the sample there. -/
 theorem recovery_fallback (k T : Nat) (ws : List Wave) (fs : List Feat) (hB : RectBatch T ws)
     (h : batch k T ws = .ok fs) (i : Nat) (w : Wave) (f : Feat) (hw : ws[i]? = some w) (hf : fs[i]? = some f) :
     f.recTime = (if f.troughTime + k < T then f.troughTime + k else T - 1) ∧ f.recTime < T ∧
-    ((∀ c p, IsPeakLoc T w c p → ¬ StaysHigh T w c p) → f.recVal = smp w f.peakTrace f.recTime) := by
+    f.recVal = smp w f.peakTrace f.recTime := by
   obtain ⟨c0, p0, hloc, hs⟩ := batch_row_spec hB h hw hf
   refine ⟨hs.recT, ?_, ?_⟩
   · rw [hs.recT]; have := hs.kT; split <;> omega
-  · intro hF21
-    rw [hs.trace]
-    exact (hs.good (hF21 c0 p0 hloc)).recv
+  · rw [hs.trace]
+    exact hs.good.recv
 
 /-- The guard as it stood before the `fix:` commit (`idx_all > T`): for `trough + k = T` it does not
 fire and the index `T` is outside the window `[0, T)` – the `IndexError` of finding F7. -/
@@ -191,28 +186,28 @@ theorem recovery_prefix_counterexample :
     ¬ (trough + k > T) ∧ ¬ (trough + k < T) ∧ (if trough + k ≥ T then T - 1 else trough + k) = T - 1 := by
   decide
 
-/-- Finding F21, witness: one channel, positive peak on the last sample.  The extraction succeeds, but
-`half_peak_pre_time_idx = 8` although sample 8 (60) is not within half of the peak (100) while sample 7
-(20) is; `tip_val = -60` is not the sample at `tip_time_idx = 8`; `recovery_val = -100` is not the
-sample at `recovery_time_idx = 9`. -/
-theorem stays_high_counterexample :
+/-- The old witness of finding F21 (one channel, positive peak on the last sample, which is swapped onto
+itself) under the repaired code: the tip is sample 2 (−2, the most negative sample before the peak),
+`half_peak_pre_time_idx = 7` (20 is the nearest sample below half of 100; sample 8 holds 60), and tip,
+half-peak and recovery values are the samples at their indices. -/
+theorem swapped_positive_peak_witness :
     let w : Wave := [[0, 1, -2, 1, 0, 2, 5, 20, 60, 100]]
-    StaysHigh 10 w 0 9 ∧
-    ∃ f, batch 5 10 [w] = .ok [f] ∧ f.peakTime = 9 ∧ f.peakVal = 100 ∧
-      f.halfPre = 8 ∧ ¬ WithinHalf f.peakVal (smp w 0 8) ∧ WithinHalf f.peakVal (smp w 0 7) ∧
-      f.tipTime = 8 ∧ f.tipVal = -60 ∧ smp w 0 8 = 60 ∧ f.recTime = 9 ∧ f.recVal = -100 := by
+    WeaklyPositive 10 w 0 9 9 ∧
+    ∃ f, batch 5 10 [w] = .ok [f] ∧ f.peakTime = 9 ∧ f.peakVal = 100 ∧ f.troughTime = 9 ∧
+      f.tipTime = 2 ∧ f.tipVal = -2 ∧ f.halfPre = 7 ∧ f.halfPreVal = 20 ∧ WithinHalf f.peakVal (smp w 0 7) ∧
+      ¬ WithinHalf f.peakVal (smp w 0 8) ∧ f.recTime = 9 ∧ f.recVal = 100 := by
   intro w
-  have hb : batch 5 10 [w] = .ok [⟨0, 9, 100, -1, 9, 100, 8, -60, 9, 8, -100, -60, 9, -100⟩] := by
+  have hb : batch 5 10 [w] = .ok [⟨0, 9, 100, -1, 9, 100, 2, -2, 0, 7, 0, 20, 9, 100⟩] := by
     decide +kernel
-  refine ⟨?_, _, hb, rfl, rfl, rfl, ?_, ?_, rfl, rfl, ?_, rfl, rfl⟩
-  · refine ⟨by decide +kernel, ?_⟩
-    intro t h1 h2
+  refine ⟨⟨by decide +kernel, ⟨by decide, by decide, ?_, ?_⟩, by decide +kernel⟩,
+    _, hb, rfl, rfl, rfl, rfl, rfl, rfl, rfl, ?_, ?_, rfl, rfl⟩
+  · intro t h1 h2
     have : t = 9 := by omega
     subst this
     decide +kernel
+  · intro t h1 h2; omega
   · unfold WithinHalf; decide +kernel
   · unfold WithinHalf; decide +kernel
-  · decide +kernel
 
 /-- Scaling every waveform by `c > 0` scales all value columns by `c` and leaves all indices (and
 whether the extraction succeeds) unchanged. -/
@@ -373,13 +368,12 @@ example :
       have := hloc.2.2.1 0 2 (by decide) (by decide)
       interval_cases c <;> revert this <;> decide +kernel
 
-/-- the second waveform above is weakly positive (peak 9 on sample 2, trough −8 on sample 3) and not in
-the F21 class; the first is in neither -/
+/-- the second waveform above is weakly positive (peak 9 on sample 2, trough −8 on sample 3) -/
 example :
     let w : Wave := [[0, 1, 9, -8, 0, 0], [0, 0, 1, 1, 0, 0]]
-    IsPeakLoc 6 w 0 2 ∧ WeaklyPositive 6 w 0 2 3 ∧ ¬ StaysHigh 6 w 0 2 := by
+    IsPeakLoc 6 w 0 2 ∧ WeaklyPositive 6 w 0 2 3 := by
   intro w
-  refine ⟨⟨by decide, by decide, ?_, ?_, ?_⟩, ⟨by decide +kernel, ⟨by decide, by decide, ?_, ?_⟩, by decide +kernel⟩, ?_⟩
+  refine ⟨⟨by decide, by decide, ?_, ?_, ?_⟩, ⟨by decide +kernel, ⟨by decide, by decide, ?_, ?_⟩, by decide +kernel⟩⟩
   · intro c' t' h1 h2
     have h1' : c' < 2 := h1
     interval_cases c' <;> interval_cases t' <;> decide +kernel
@@ -387,9 +381,6 @@ example :
   · intro t' h; interval_cases t' <;> decide +kernel
   · intro t h1 h2; interval_cases t <;> decide +kernel
   · intro t h1 h2; interval_cases t; decide +kernel
-  · rintro ⟨_, h⟩
-    have := h 3 (by decide) (by decide)
-    revert this; decide +kernel
 
 /-- … and it has a unique maximal channel, so `channel_perm` applies to it and to its channel swap -/
 example :
